@@ -80,6 +80,11 @@ def run(idx, rep, tier):
     c06.header_value_sequence(idx, rep, "R2")
     # … and as the line is now: between lines every component is reset, also one that read an absent y (None) on the line before
     c06.reset_table(idx, rep, "R2")
+    c06.reset_clears(idx, rep, "R2", classes={"Equality", "Header", "Variable", "Function", "Expression"})
+    # "the rest of the line matching" that onmatch waits for is the expressions' verdicts as the matcher will see them: an expression below
+    # which an error was handled does not match, also when it is a look-ahead that asks (C05.R5's Expression.matches table)
+    from . import c05 as _c05
+    _c05.r5(idx, K.as_rule(rep, "R3", keep=lambda k: "Expression.matches table" in k))
     # the table above runs on the checker's own small values, for which `is` and `==` coincide; the analysed code must not depend on that
     n = 0
     for cls in ("Equality", "Qualified", "Variable", "Matchable"):
@@ -336,6 +341,25 @@ def r4(idx, rep):
         if len(ps) != 1 or ps[0].result != ("return", want):
             bad = bad or f"asbool({v!r}) is {ps[0].result}, documented {want}"
     rep.check(bad is None, "R4", f"{fi.file}::ExpressionUtility.asbool table", bad or f"{len(table)} values", K.where(fi, fi.node))
+    # … and the answer for a value does not depend on what was asked before (an absent y and the cell text 'None', 0 and '0', True and 'True'
+    # are different values with the same text): every value alone, then all of them in one process in both orders
+    vals = [v for v, _ in table] + ["None", "0", "1", "False", " 1 ", "nan "]
+
+    def ask(seq):
+        it = Interp(idx, types={"cls": "ExpressionUtility"}, handlers={"cls.isnan": lambda i, c, r, a, k: False}, unknown_calls="residual")
+        ps = it.run_program(lambda i: [i.call_function(fi, {"v": v}, "cls") for v in seq], {})
+        if len(ps) != 1 or ps[0].result[0] != "return":
+            raise AnalysisError(f"asbool is not deterministic on {seq}: {[p.result for p in ps][:2]}")
+        return ps[0].result[1]
+
+    alone = [ask([v])[0] for v in vals]
+    bad = None
+    for order in (list(range(len(vals))), list(reversed(range(len(vals))))):
+        got = ask([vals[j] for j in order])
+        for j, g in zip(order, got):
+            if g != alone[j]:
+                bad = bad or f"asbool({vals[j]!r}) is {alone[j]!r} when asked first and {g!r} after {[vals[k] for k in order[:order.index(j)]]!r} were asked in the same process"
+    rep.check(bad is None, "R4", f"{fi.file}::ExpressionUtility.asbool does not depend on earlier questions", bad or f"{len(vals)} values, two orders", K.where(fi, fi.node))
 
 
 def r5(idx, rep):
